@@ -11,7 +11,7 @@
      _connect: the flush after the connected notification is such a loop too.
 
    The link going down / coming up is an input here (Sock.v is the model of that part); the link
-   never goes down while a loop is suspended (that is a write fault: outside this model, run
+   never goes down while a loop is suspended or the connected notification is running (that is a write fault: outside this model, run
    returns None).  Messages are encodable.  Time in ticks.  No proofs in this file. *)
 From Coq Require Import ZArith List Bool.
 From PV Require Import sock.Sock.
@@ -22,6 +22,7 @@ Record dstate := mkD {
   d_conn : bool;             (* is_connected *)
   d_bp : bool;               (* the transport has paused writing: drain() blocks *)
   d_parked : nat;            (* drain loops suspended inside writer.drain() *)
+  d_owed : bool;             (* _connect has set is_connected and is notifying: its flush is still to come *)
   d_queue : list entry;
   d_now : Z;
   d_nsend : nat }.
@@ -37,9 +38,12 @@ Inductive dop :=
 | DAdv (dt : Z)
 | DBp (on : bool)
 | DUp                                 (* a connection is established (then the flush) *)
+| DConn                               (* a connection is established; the connected notification is running
+                                         (subscribers may send now); the flush follows as DFlush *)
+| DFlush                              (* ... the flush of _connect after the notification *)
 | DDown.                              (* the link is lost while no loop is suspended *)
 
-Definition dinit (conn : bool) : dstate := mkD conn false 0 [] 0 0.
+Definition dinit (conn : bool) : dstate := mkD conn false 0 false [] 0 0.
 
 Definition ev_of (now : Z) (e : entry) : dev :=
   if unexpired now e then DWrote (e_idx e) now else DDrop (e_idx e) now.
@@ -65,38 +69,47 @@ Definition dstep (s : dstate) (o : dop) : option (dstate * list dev) :=
     let q := filter (unexpired (d_now s)) (d_queue s) in
     let pe := purge_evs (d_now s) (d_queue s) in
     if (capacity <=? length q)%nat then
-      Some (mkD (d_conn s) (d_bp s) (d_parked s) q (d_now s) (d_nsend s), pe ++ [DRefused])
+      Some (mkD (d_conn s) (d_bp s) (d_parked s) (d_owed s) q (d_now s) (d_nsend s), pe ++ [DRefused])
     else
       let e := mkEntry (d_nsend s) 0 EncOk 0 retries (d_now s + life) in
       let q2 := q ++ [e] in
       if d_conn s then
         let '(evs, rest, p) := dloop (d_bp s) (d_now s) q2 in
-        Some (mkD true (d_bp s) (d_parked s + (if p then 1 else 0)) rest (d_now s) (S (d_nsend s)),
+        Some (mkD true (d_bp s) (d_parked s + (if p then 1 else 0)) (d_owed s) rest (d_now s) (S (d_nsend s)),
               pe ++ DAccept (d_nsend s) (d_now s + life) :: evs)
-      else Some (mkD false (d_bp s) (d_parked s) q2 (d_now s) (S (d_nsend s)),
+      else Some (mkD false (d_bp s) (d_parked s) (d_owed s) q2 (d_now s) (S (d_nsend s)),
                  pe ++ [DAccept (d_nsend s) (d_now s + life)])
   | DAdv dt =>
     if dt <? 0 then None
-    else Some (mkD (d_conn s) (d_bp s) (d_parked s) (d_queue s) (d_now s + dt) (d_nsend s), [])
-  | DBp true => Some (mkD (d_conn s) true (d_parked s) (d_queue s) (d_now s) (d_nsend s), [])
+    else Some (mkD (d_conn s) (d_bp s) (d_parked s) (d_owed s) (d_queue s) (d_now s + dt) (d_nsend s), [])
+  | DBp true => Some (mkD (d_conn s) true (d_parked s) (d_owed s) (d_queue s) (d_now s) (d_nsend s), [])
   | DBp false =>
     match d_parked s with
-    | O => Some (mkD (d_conn s) false 0 (d_queue s) (d_now s) (d_nsend s), [])
+    | O => Some (mkD (d_conn s) false 0 (d_owed s) (d_queue s) (d_now s) (d_nsend s), [])
     | S _ =>
       (* the suspended loops continue in the order they were suspended; the first one empties the
          queue, the others find it empty *)
       let '(evs, rest, _) := dloop false (d_now s) (d_queue s) in
-      Some (mkD (d_conn s) false 0 rest (d_now s) (d_nsend s), evs)
+      Some (mkD (d_conn s) false 0 (d_owed s) rest (d_now s) (d_nsend s), evs)
     end
   | DUp =>
     if d_conn s then None
     else let '(evs, rest, p) := dloop (d_bp s) (d_now s) (d_queue s) in
-         Some (mkD true (d_bp s) (if p then 1 else 0)%nat rest (d_now s) (d_nsend s), evs)
+         Some (mkD true (d_bp s) (if p then 1 else 0)%nat false rest (d_now s) (d_nsend s), evs)
+  | DConn =>
+    if d_conn s then None
+    else Some (mkD true (d_bp s) 0 true (d_queue s) (d_now s) (d_nsend s), [])
+  | DFlush =>
+    if d_owed s then
+      let '(evs, rest, p) := dloop (d_bp s) (d_now s) (d_queue s) in
+      Some (mkD (d_conn s) (d_bp s) (d_parked s + (if p then 1 else 0)) false rest (d_now s) (d_nsend s), evs)
+    else None
   | DDown =>
-    match d_parked s with
-    | O => Some (mkD false (d_bp s) 0 (d_queue s) (d_now s) (d_nsend s), [])
-    | S _ => None
-    end
+    if d_owed s then None
+    else match d_parked s with
+         | O => Some (mkD false (d_bp s) 0 false (d_queue s) (d_now s) (d_nsend s), [])
+         | S _ => None
+         end
   end.
 
 Fixpoint drun (s : dstate) (ops : list dop) : option (dstate * list dev) :=
